@@ -5,8 +5,10 @@ use litep2p::{
     crypto::{
         ed25519,
         verif::{verif_parse_and_verify_peer_id, VERIF_STATIC_KEY_DOMAIN},
+        verif_noise_identity::verif_decode_key_message,
         PublicKey, RemotePublicKey,
     },
+    transport::verif::AddressRecord,
     PeerId,
 };
 use multiaddr::{Multiaddr, Protocol};
@@ -16,6 +18,10 @@ use std::{
     path::Path,
     str::FromStr,
 };
+
+mod gen {
+    include!("c18_gen.rs");
+}
 
 type RefPeerId = multiaddr::PeerId; // = libp2p_identity::PeerId
 type Multihash = multihash::Multihash<64>;
@@ -148,6 +154,32 @@ mod binserde {
         }
     }
 
+    /// A format that claims to be human readable but hands over bytes, and one that does not
+    /// claim it but hands over a string: `Deserialize for PeerId` picks deserialize_str /
+    /// deserialize_bytes by the claim, the visitor must cope with what actually arrives.
+    pub struct Cross<'a> {
+        pub human: bool,
+        pub bytes: Option<&'a [u8]>,
+        pub text: Option<&'a str>,
+    }
+    impl<'de, 'a> de::Deserializer<'de> for Cross<'a> {
+        type Error = E;
+        fn is_human_readable(&self) -> bool {
+            self.human
+        }
+        fn deserialize_any<V: de::Visitor<'de>>(self, v: V) -> Result<V::Value, E> {
+            match (self.bytes, self.text) {
+                (Some(b), _) => v.visit_bytes(b),
+                (_, Some(t)) => v.visit_str(t),
+                _ => Err(E("nothing".into())),
+            }
+        }
+        serde::forward_to_deserialize_any! {
+            bool i8 i16 i32 i64 i128 u8 u16 u32 u64 u128 f32 f64 char str string bytes byte_buf option
+            unit unit_struct newtype_struct seq tuple tuple_struct map struct enum identifier ignored_any
+        }
+    }
+
     pub struct FromBytes<'a>(pub &'a [u8]);
     impl<'de, 'a> de::Deserializer<'de> for FromBytes<'a> {
         type Error = E;
@@ -187,7 +219,9 @@ fn accepted_tail(p: PeerId, refp: Option<RefPeerId>, agree: bool, out: &mut Vec<
     el(out, text.as_bytes());
     el(out, &comp);
     let f1 = matches!(PeerId::from_bytes(&bytes), Ok(q) if q == p);
-    let f2 = matches!(PeerId::from_str(&text), Ok(q) if q == p) && p.to_string() == text;
+    let f2 = matches!(PeerId::from_str(&text), Ok(q) if q == p)
+        && p.to_string() == text
+        && format!("{p:?}") == format!("PeerId({text:?})");
     let f3 = PeerId::try_from_multiaddr(&addr) == Some(p);
     let f4 = matches!(Multiaddr::try_from(comp.clone()), Ok(a) if PeerId::try_from_multiaddr(&a) == Some(p));
     let atext = format!("/p2p/{text}");
@@ -243,7 +277,9 @@ fn bytes_entry_points_agree(b: &[u8], r: Option<PeerId>) -> bool {
     let mh = Multihash::from_bytes(b).ok();
     let a3 = mh.and_then(|m| PeerId::try_from(m).ok());
     let a4 = mh.and_then(|m| PeerId::from_multihash(m).ok());
-    a1 == r && a2 == r && a3 == r && a4 == r
+    // a "human readable" format that hands over bytes still ends in from_bytes
+    let a5 = PeerId::deserialize(binserde::Cross { human: true, bytes: Some(b), text: None }).ok();
+    a1 == r && a2 == r && a3 == r && a4 == r && a5 == r
 }
 
 fn json_plain(s: &str) -> bool {
@@ -256,7 +292,9 @@ fn text_entry_points_agree(s: &str, r: Option<PeerId>) -> bool {
     let a1 = s.parse::<PeerId>().ok();
     let de: StrDeserializer<'_, binserde::E> = s.into_deserializer();
     let a2 = PeerId::deserialize(de).ok();
-    let mut ok = a1 == r && a2 == r;
+    // a binary format that hands over a string still ends in from_str
+    let a3 = PeerId::deserialize(binserde::Cross { human: false, bytes: None, text: Some(s) }).ok();
+    let mut ok = a1 == r && a2 == r && a3 == r;
     if json_plain(s) {
         ok &= serde_json::from_str::<PeerId>(&format!("\"{s}\"")).ok() == r;
     }
@@ -269,8 +307,33 @@ fn text_entry_points_agree(s: &str, r: Option<PeerId>) -> bool {
     ok
 }
 
-fn sha256(b: &[u8]) -> Vec<u8> {
-    Sha256::digest(b).to_vec()
+/// The local-id sites of the table: `Litep2p::new` (src/lib.rs) — which also runs
+/// `TransportManagerBuilder::build` (src/transport/manager/mod.rs) — for one case in eight.
+fn local_ids_agree(kp: &ed25519::Keypair, pid: PeerId) -> bool {
+    if kp.public().to_bytes()[0] % 8 != 0 {
+        return true;
+    }
+    let rt = match tokio::runtime::Builder::new_current_thread().enable_all().build() {
+        Ok(rt) => rt,
+        Err(_) => return false,
+    };
+    rt.block_on(async {
+        let config = litep2p::config::ConfigBuilder::new()
+            .with_keypair(kp.clone())
+            .with_tcp(litep2p::transport::tcp::config::Config {
+                listen_addresses: vec![],
+                reuse_port: false,
+                ..Default::default()
+            })
+            .build();
+        match litep2p::Litep2p::new(config) {
+            Ok(l) => *l.local_peer_id() == pid,
+            Err(e) => {
+                eprintln!("c18: Litep2p::new failed: {e:?}");
+                false
+            }
+        }
+    })
 }
 
 fn litep2p_decode_key(blob: &[u8]) -> Option<(RemotePublicKey, [u8; 32])> {
@@ -325,20 +388,18 @@ fn normalise(c: &[u64]) -> Vec<u64> {
     }
 }
 
+/// The Data field as the real prost decoder sees it, and whether the curve check takes it.
+fn curve_bit(blob: &[u8]) -> bool {
+    match verif_decode_key_message(blob) {
+        Some((_, data)) => ed25519::PublicKey::try_from_bytes(&data).is_ok(),
+        None => false,
+    }
+}
+
 fn mk_blob_case(blob: &[u8]) -> Vec<u64> {
     let mut c = vec![4];
     el(&mut c, blob);
-    el(&mut c, &sha256(blob));
-    match litep2p_decode_key(blob) {
-        Some((_, k)) => {
-            c.push(1);
-            el(&mut c, &k);
-        }
-        None => {
-            c.push(0);
-            c.push(0);
-        }
-    }
+    c.push(curve_bit(blob) as u64);
     c
 }
 
@@ -349,8 +410,6 @@ fn mk_key_case(secret: &[u8], blob: &[u8]) -> Vec<u64> {
     el(&mut c, secret);
     el(&mut c, &pk);
     el(&mut c, blob);
-    let acc = matches!(litep2p_decode_key(blob), Some((_, k)) if k == pk);
-    c.push(acc as u64);
     c
 }
 
@@ -372,10 +431,21 @@ fn run_case(c: &[u64]) -> Option<Vec<u64>> {
             if i != c.len() {
                 return None;
             }
-            let Some(s) = b.and_then(|b| String::from_utf8(b).ok()) else { return Some(vec![2, 0, 0, 1]) };
-            let r = PeerId::from_str(&s).ok();
+            // text that is not UTF-8 cannot be handed to from_str; bs58 refuses every non-ASCII character
+            let Some(s) = b.and_then(|b| String::from_utf8(b).ok()) else { return Some(vec![2, 0, 0, 1, 1]) };
+            let res = PeerId::from_str(&s);
+            let err = match &res {
+                Ok(_) => 0,
+                Err(litep2p::ParseError::B58(_)) => 1,
+                Err(litep2p::ParseError::MultiHash) => 2,
+            };
+            let r = res.ok();
             let agree = text_entry_points_agree(&s, r);
-            Some(parse_result(2, r, RefPeerId::from_str(&s).ok(), agree))
+            let mut t = parse_result(2, r, RefPeerId::from_str(&s).ok(), agree);
+            if r.is_none() {
+                t.push(err);
+            }
+            Some(t)
         }
         3 => {
             let b = as_bytes(&take_list(c, &mut i)?);
@@ -397,6 +467,15 @@ fn run_case(c: &[u64]) -> Option<Vec<u64>> {
             let blob = as_bytes(&take_list(c, &mut i)?)?;
             let mut out = vec![4];
             el(&mut out, &PeerId::from_public_key_protobuf(&blob).to_bytes());
+            // the message as the real prost decoder reads it (type as the u32 two's complement)
+            match verif_decode_key_message(&blob) {
+                Some((t, data)) => {
+                    out.push(1);
+                    out.push(t as u32 as u64);
+                    el(&mut out, &data);
+                }
+                None => out.push(0),
+            }
             match litep2p_decode_key(&blob) {
                 Some((rk, k)) => {
                     out.push(1);
@@ -438,8 +517,25 @@ fn run_case(c: &[u64]) -> Option<Vec<u64>> {
             }
             let refkp = libp2p_identity::Keypair::ed25519_from_bytes(secret.clone()).ok()?;
             el(&mut out, &refkp.public().to_peer_id().to_bytes());
+            // another key is told apart; the legacy SHA-256 id of the same encoding is recognised
+            let other = keypair_of(&{
+                let mut o = secret.clone();
+                o[0] ^= 1;
+                o
+            })?;
+            let other_public = PublicKey::Ed25519(other.public());
+            let enc = public.to_protobuf_encoding();
+            let legacy = Multihash::wrap(0x12, &Sha256::digest(&enc)).ok().and_then(|m| PeerId::from_multihash(m).ok())?;
             let same = pid.is_public_key(&public) == Some(true)
+                && pid.is_public_key(&other_public) == Some(false)
+                && other.public().to_peer_id().is_public_key(&public) == Some(false)
+                && legacy.is_public_key(&public) == Some(true)
+                && legacy.is_public_key(&other_public) == Some(false)
+                && legacy != pid
                 && pk.to_peer_id() == pid
+                && public.to_peer_id() == pid
+                && PeerId::from(public.clone()) == pid
+                && local_ids_agree(&kp, pid)
                 && PeerId::from(&public) == pid
                 && PeerId::from_public_key_protobuf(&public.to_protobuf_encoding()) == pid
                 && refkp.public().encode_protobuf() == public.to_protobuf_encoding();
@@ -522,6 +618,30 @@ fn run_case(c: &[u64]) -> Option<Vec<u64>> {
         }
         9 => aux::run_tls(c),
         10 => aux::run_rsa(c),
+        11 => {
+            let pb = as_bytes(&take_list(c, &mut i)?);
+            let ab = as_bytes(&take_list(c, &mut i)?);
+            if i != c.len() {
+                return None;
+            }
+            let Some(peer) = pb.and_then(|b| PeerId::from_bytes(&b).ok()) else { return Some(vec![11, 0]) };
+            let Some(addr) = ab.and_then(|b| Multiaddr::try_from(b).ok()) else { return Some(vec![11, 1, 0]) };
+            let mut out = vec![11, 1, 1];
+            let opt = |out: &mut Vec<u64>, p: Option<PeerId>| match p {
+                Some(p) => {
+                    out.push(1);
+                    el(out, &p.to_bytes());
+                }
+                None => out.push(0),
+            };
+            opt(&mut out, PeerId::try_from_multiaddr(&addr));
+            // src/transport/manager/address.rs: appends /p2p/<peer> through the infallible From
+            let rec = AddressRecord::new(&peer, addr.clone(), 0);
+            el(&mut out, &rec.address().to_vec());
+            opt(&mut out, PeerId::try_from_multiaddr(rec.address()));
+            out.push(AddressRecord::from_multiaddr(addr).is_some() as u64);
+            Some(out)
+        }
         _ => None,
     }
 }
@@ -581,7 +701,11 @@ mod aux {
         }
         let refkp = libp2p_identity::Keypair::ed25519_from_bytes(secret.clone()).ok()?;
         el(&mut out, &refkp.public().to_peer_id().to_bytes());
-        out.push((pid.is_public_key(&public) == Some(true)) as u64);
+        // the crate's own certificate (tls::certificate::generate, not the hook's copy) carries the
+        // canonical encoding and parses back to the local id
+        let own = litep2p::crypto::verif_tls::verif_tls_generate(&kp)
+            .and_then(|der| litep2p::crypto::verif_tls::verif_tls_parse(&der));
+        out.push((pid.is_public_key(&public) == Some(true) && own == Some(pid)) as u64);
         Some(out)
     }
 
@@ -625,10 +749,19 @@ mod aux {
         let mut c = vec![10];
         el(&mut c, blob);
         el(&mut c, pkcs1);
-        el(&mut c, &sha256(&canonical(pkcs1)));
+        // oracle: does the X.509 parser take the Data field (as the real prost decoder reads it) for
+        // this key — asked through the canonical framing 08 00 12 len around that field
         let want = RemotePublicKey::from_protobuf_encoding(&canonical(pkcs1)).ok();
-        let got = RemotePublicKey::from_protobuf_encoding(blob).ok();
-        c.push((want.is_some() && got == want) as u64);
+        let xacc = match verif_decode_key_message(blob) {
+            Some((_, data)) => {
+                let mut framed = vec![0x08, 0x00, 0x12];
+                framed.extend(varint(data.len() as u64));
+                framed.extend(&data);
+                want.is_some() && RemotePublicKey::from_protobuf_encoding(&framed).ok() == want
+            }
+            None => false,
+        };
+        c.push(xacc as u64);
         c
     }
 
@@ -1096,6 +1229,117 @@ fn gen_pair(rng: &mut Rng) -> (Vec<u8>, Vec<u8>) {
     }
 }
 
+/// A binary multiaddress: a few well-formed components, then possibly a /p2p component in one of
+/// the byte-level styles of `gen_component`, then possibly damage.
+fn gen_addr_bytes(rng: &mut Rng) -> Vec<u8> {
+    let mut a = Multiaddr::empty();
+    let n = rng.pick(&[0u64, 1, 2, 2, 3, 4]);
+    for _ in 0..n {
+        let p = match rng.below(14) {
+            0 | 1 => Protocol::Ip4(std::net::Ipv4Addr::new(rng.next() as u8, 2, 3, rng.next() as u8)),
+            2 => Protocol::Ip6(std::net::Ipv6Addr::new(0x2001, 0xdb8, 0, 0, 0, 0, rng.next() as u16, 1)),
+            3 | 4 => Protocol::Tcp(rng.next() as u16),
+            5 => Protocol::Udp(rng.next() as u16),
+            6 => Protocol::QuicV1,
+            7 => Protocol::Ws(std::borrow::Cow::Borrowed("/")),
+            8 => Protocol::Wss(std::borrow::Cow::Borrowed("/")),
+            9 => Protocol::Dns4(std::borrow::Cow::Borrowed("example.com")),
+            10 => Protocol::P2pCircuit,
+            11 => Protocol::Memory(rng.next()),
+            12 => Protocol::WebRTCDirect,
+            _ => match RefPeerId::from_bytes(&gen_valid_id_bytes(rng)) {
+                Ok(p) => Protocol::P2p(p),
+                Err(_) => Protocol::P2pCircuit,
+            },
+        };
+        a = a.with(p);
+    }
+    let mut b = a.to_vec();
+    match rng.below(10) {
+        0..=3 => b.extend(gen_component(rng)),
+        4 | 5 => {
+            let id = gen_valid_id_bytes(rng);
+            b.extend([0xa5, 0x03, id.len() as u8]);
+            b.extend(id);
+        }
+        _ => {}
+    }
+    match rng.below(30) {
+        0 => {
+            b.pop();
+        }
+        1 => {
+            if !b.is_empty() {
+                let i = rng.below(b.len() as u64) as usize;
+                b[i] ^= 1 << rng.below(8);
+            }
+        }
+        2 => b.extend(rand_bytes(rng, 2)),
+        3 => b.extend([0x06, 0x1f, 0x90]), // a /tcp after the /p2p
+        _ => {}
+    }
+    b
+}
+
+/// The part of the quantifier that is small enough to enumerate, run before the random cases of
+/// every stream: every multihash code of interest x every digest length 0..=70 in canonical form
+/// as bytes, as text and as a /p2p component; a key blob of every length 0..=100; every key type
+/// of keys.proto (and numbers around / outside the enum, incl. the i32 wrap-arounds) x Data
+/// lengths around 32 in canonical framing; every (code, length) pair once more as an
+/// AddressRecord peer.
+fn systematic_cases(rng: &mut Rng) -> Vec<Vec<u64>> {
+    let mut out = Vec::new();
+    for code in [0x00u64, 0x11, 0x12, 0x13, 0x16, 0xb220] {
+        for l in 0..=70usize {
+            let mut b = varint(code);
+            b.extend(varint(l as u64));
+            b.extend(rand_bytes(rng, l));
+            let mut c = vec![1];
+            el(&mut c, &b);
+            out.push(c);
+            if code == 0 || code == 0x12 {
+                let mut c = vec![2];
+                el(&mut c, bs58::encode(&b).into_string().as_bytes());
+                out.push(c);
+                let mut comp = vec![0xa5, 0x03];
+                comp.extend(varint(b.len() as u64));
+                comp.extend(&b);
+                let mut c = vec![3];
+                el(&mut c, &comp);
+                out.push(c);
+                let mut c = vec![11];
+                el(&mut c, &b);
+                el(&mut c, &[4, 10, 0, 0, 1, 6, 0x1f, 0x90]);
+                out.push(c);
+            }
+        }
+    }
+    for l in 0..=100usize {
+        out.push(mk_blob_case(&rand_bytes(rng, l)));
+    }
+    let key = keypair_of(&random_secret(rng)).unwrap().public().to_bytes().to_vec();
+    // every entry of keys.proto's KeyType (table extracted from the source), the two numbers after the
+    // last one, and the values whose `as i32` truncation lands inside / outside the enum
+    let mut types: Vec<u64> = gen::KEY_TYPE_NUMBERS.to_vec();
+    let top = types.iter().copied().max().unwrap_or(0);
+    types.extend([top + 1, top + 2, 127, 128, (1 << 31) - 1, 1 << 31, u64::MAX]);
+    types.extend(gen::KEY_TYPE_NUMBERS.iter().map(|t| (1u64 << 32) + t));
+    types.push((1u64 << 32) + top + 1);
+    for t in types {
+        for dl in [0usize, 1, 31, 32, 33, 64] {
+            let mut data = key.clone();
+            data.resize(dl, 7);
+            let mut b = vec![0x08];
+            b.extend(varint(t));
+            b.push(0x12);
+            b.extend(varint(dl as u64));
+            b.extend(&data);
+            out.push(mk_blob_case(&b));
+        }
+    }
+    out
+}
+
 fn gen_case(rng: &mut Rng, aux_only: bool) -> Vec<u64> {
     if aux_only {
         // the optional build: TLS certificates (QUIC) and RSA keys
@@ -1135,7 +1379,14 @@ fn gen_case(rng: &mut Rng, aux_only: bool) -> Vec<u64> {
             c
         }
         74 => vec![8, rng.range(1, 8)],
-        75..=90 => {
+        75..=80 => {
+            let peer = if rng.chance(92) { gen_valid_id_bytes(rng) } else { gen_multihash_bytes(rng) };
+            let mut c = vec![11];
+            el(&mut c, &peer);
+            el(&mut c, &gen_addr_bytes(rng));
+            c
+        }
+        81..=90 => {
             let key = if rng.chance(80) {
                 keypair_of(&random_secret(rng)).unwrap().public().to_bytes().to_vec()
             } else {
@@ -1168,7 +1419,10 @@ pub fn main(args: &Args) {
     let seed = args.u64("seed", 1);
     let ncases = args.u64("cases", 100);
     let mut out = Outputs::open(args);
-    let mut rng = Rng::new(seed);
+    // util::Rng::new(seed) puts consecutive seeds one step apart on ONE splitmix64 orbit (seed k+1 is
+    // seed k shifted by a case); take the output of one step as the state instead, so that different
+    // seeds give unrelated case streams
+    let mut rng = Rng(Rng::new(seed).next() ^ 0xC18_C18_C18);
     let run = |c: &[u64]| -> Vec<u64> {
         catch_unwind(AssertUnwindSafe(|| run_case(c))).unwrap_or(Some(vec![PANIC_MARK])).unwrap_or(vec![0])
     };
@@ -1191,6 +1445,13 @@ pub fn main(args: &Args) {
     if aux_only && !aux::ENABLED {
         eprintln!("c18 --aux needs a harness built with --features quic,rsa");
         std::process::exit(2);
+    }
+    if !aux_only {
+        let mut r = rng.fork();
+        for c in systematic_cases(&mut r) {
+            let t = run(&c);
+            out.emit(&c, &t);
+        }
     }
     for _ in 0..ncases {
         let mut r = rng.fork();
